@@ -30,7 +30,7 @@ STUBS = ["Circuit.sblock_queue stub with IDLE marker; _simulate stepped by hand"
 ASSUMPTIONS = ["documented margin = 3 evaluations per block of the circuit, per burst (_MAX_EVALS_PER_BLOCK)"]
 EXPECT_LABELS = {'all': ['unsat-reported', 'eval-bound', 'idle-consistent', 'acyclic-never-unstable', 'event-loop-reported',
                          'event-loop-settles']}
-EXPECT_NOTES = {'all': ['no-consistent-assignment', 'consistent-settled']}
+EXPECT_NOTES = {'all': ['no-consistent-assignment', 'consistent-settled', 'acyclic-at-the-margin', 'burst-above-3-per-cblock']}
 FLOORS = {'quick': {'paths': 500, 'checks': 1000}, 'thorough': {'paths': 5000, 'checks': 10000}}
 
 COUNT = [0]
@@ -123,14 +123,15 @@ def is_consistent(spec, inputs, real):
     return True
 
 
-def run_net(env, spec, ninputs, label_prefix, expect_acyclic=False, order_budget=10 ** 9):
+def run_net(env, spec, ninputs, label_prefix, expect_acyclic=False, order_budget=10 ** 9, names=None):
     try:
-        _run_net(env, spec, ninputs, label_prefix, expect_acyclic, order_budget)
+        _run_net(env, spec, ninputs, label_prefix, expect_acyclic, order_budget, names)
     except Runaway:
         env.check('eval-bound', False, info=lambda: (spec, 'more than %d evaluations in one burst' % RUNAWAY))
 
 
-def _run_net(env, spec, ninputs, label_prefix, expect_acyclic, order_budget):
+def _run_net(env, spec, ninputs, label_prefix, expect_acyclic, order_budget, names=None):
+    cname = (lambda j: names[j]) if names else (lambda j: f'c{j}')
     drv = Driver(order_budget=order_budget)
     vals = [env.int(f'i{k}') for k in range(ninputs)]
     inp = [edzed.Input(f'i{k}', initdef=v) for k, v in enumerate(vals)]
@@ -138,8 +139,8 @@ def _run_net(env, spec, ninputs, label_prefix, expect_acyclic, order_budget):
     truth = [bool(v) for v in vals]
     blocks = []
     for j, (kind, srcs) in enumerate(spec):
-        names = [f'i{x[1]}' if x[0] == 'in' else f'c{x[1]}' for x in srcs]
-        blocks.append(make_block(kind, f'c{j}', names))
+        srcnames = [f'i{x[1]}' if x[0] == 'in' else cname(x[1]) for x in srcs]
+        blocks.append(make_block(kind, cname(j), srcnames))
     drv.start()
     nblocks = len(list(drv.circ.getblocks()))
     limit = simulator._MAX_EVALS_PER_BLOCK * nblocks
@@ -172,6 +173,8 @@ def _run_net(env, spec, ninputs, label_prefix, expect_acyclic, order_budget):
         sat2 = has_consistent_assignment(spec, truth2)
         unstable2 = isinstance(err2, edzed.EdzedCircuitError) and 'instability' in str(err2)
         env.check('eval-bound', COUNT[0] <= limit, info=lambda: (spec, COUNT[0], limit))
+        if COUNT[0] > simulator._MAX_EVALS_PER_BLOCK * len(spec):
+            env.note('burst-above-3-per-cblock')      # the allowance counts ALL blocks of the circuit
         if expect_acyclic:
             env.check('acyclic-never-unstable', err2 is None, info=lambda: (spec, truth2, err2))
         if not sat2:
@@ -180,7 +183,7 @@ def _run_net(env, spec, ninputs, label_prefix, expect_acyclic, order_budget):
             env.check('idle-consistent', is_consistent(spec, truth2, [b.output for b in blocks]),
                       info=lambda: (spec, truth2, [b.output for b in blocks]))
     drv.close()
-    env.obs('net', spec, sat, unstable)
+    env.obs('net', spec, sat, unstable, 'evaluations in the first burst', n_eval, 'in the last burst', COUNT[0], 'limit', limit)
 
 
 def choose_spec(env, n, ninputs, kinds, first_kind=None, ring=False, fix0=None):
@@ -248,15 +251,27 @@ ACYCLIC = {
                ('or', [('cb', 1), ('cb', 2)])],
     'fan': [('not', [('in', 0)]), ('id', [('cb', 0)]), ('id', [('cb', 0)]), ('xor', [('cb', 1), ('cb', 2)]), ('and', [('cb', 3), ('in', 1)])],
     'two-level': [('and', [('in', 0), ('in', 1)]), ('or', [('in', 0), ('in', 1)]), ('xor', [('cb', 0), ('cb', 1)])],
+    # glitch cascade close to the documented margin: the a* blocks combine a signal with its own delayed copy
+    # (two identity blocks), so every stage doubles the number of paths AND - when the simulator happens to
+    # evaluate a* before the delay elements (name order = the default of the ChoiceSet) - of evaluations:
+    # 28 paths, up to 28 evaluations in one burst, 10 blocks (9 combinational + 1 Input) -> allowance 30
+    'glitch3': ([('id', [('in', 0)]), ('id', [('cb', 0)]), ('xor', [('in', 0), ('cb', 1)]),
+                 ('id', [('cb', 2)]), ('id', [('cb', 3)]), ('xor', [('cb', 2), ('cb', 4)]),
+                 ('id', [('cb', 5)]), ('id', [('cb', 6)]), ('xor', [('cb', 5), ('cb', 7)])], 1,
+                ['q5', 'q4', 'p2', 'q3', 'q2', 'p1', 'q1', 'q0', 'p0']),      # name order = downstream first = the worst order
     'reconv3': [('id', [('in', 0)]), ('not', [('cb', 0)]), ('and', [('cb', 0), ('cb', 1)]), ('or', [('cb', 0), ('cb', 2)])],
 }
 
 
 def scen_acyclic(env, name, order_budget=6):
-    spec = ACYCLIC[name]
-    nblocks = len(spec) + 2
+    spec, nin, names = ACYCLIC[name], 2, None
+    if isinstance(spec, tuple):
+        spec, nin, names = spec
+    nblocks = len(spec) + nin
     assert count_paths(spec) <= 3 * nblocks, (name, count_paths(spec))
-    run_net(env, spec, 2, 'acyclic', expect_acyclic=True, order_budget=order_budget)
+    run_net(env, spec, nin, 'acyclic', expect_acyclic=True, order_budget=order_budget, names=names)
+    if nblocks - count_paths(spec) / 3 < 1:
+        env.note('acyclic-at-the-margin')
 
 
 def scen_event_loop(env, kind):
@@ -327,7 +342,8 @@ def shards(tier):
                         'params': {'n': 3, 'first_kind': fk, 'order_budget': 1}, 'cost': 9000})
     for name in ACYCLIC:
         out.append({'name': f'acyclic {name}', 'scenario': 'scen_acyclic',
-                    'params': {'name': name, 'order_budget': 3 if tier == 'quick' else 8}, 'cost': 50})
+                    'params': {'name': name, 'order_budget': (3 if tier == 'quick' else 8) if name != 'glitch3' else
+                               (1 if tier == 'quick' else 3)}, 'cost': 50})
     for k in ('not', 'id'):
         out.append({'name': f'event loop {k}', 'scenario': 'scen_event_loop', 'params': {'kind': k}})
     return out
